@@ -25,6 +25,7 @@ func init() {
 			ruleGrouperSelection(r)
 			ruleSampleLabelSet(r)
 			ruleMapCopyWriteBack(r, []string{metricPkg, enginePkg}, 2)
+			ruleStepSamplesAccumulate(r, []string{"vectorAggIterator", "vectorAggHeapIterator", "rangeAggIterator"})
 		},
 	})
 }
